@@ -509,3 +509,5 @@ PROPS['C04']['required_classes']['all'] += ['concurrent-compilations-of-differen
 # round 10: conditional entries without conditions (C05); an enclosing filter that refuses SECCOMP_GET_ACTION_AVAIL while the policy uses log (C11)
 PROPS['C05']['required_classes']['all'] += ['accepted:conditional-entries-none-of-which-carries-a-condition', 'accepted:some-conditional-entries-without-conditions']
 PROPS['C11']['required_classes']['all'] += ['calling-thread:action-avail-denied/nnp:true']
+# round 10: what a policy file means does not depend on its name; the json.Marshal form of a policy is a policy file
+PROPS['C15']['required_classes']['all'] += ['policy-file-name-extension:.json/content:json', 'policy-file-name-extension:.json/content:yaml', 'policy-file-name-extension:.yaml/content:json']
